@@ -178,3 +178,33 @@ Lemma ex_wpkh :
   verify_spend ex_env ex_commit (spk_wpkh ex_env ex_key) [] [ex_sig; ex_key] = true /\
   verify_spend ex_env ex_commit (spk_shwpkh ex_env ex_key) (ssig_shwpkh ex_env ex_key) [ex_sig; ex_key] = true.
 Proof. repeat split; try (vm_compute; reflexivity). discriminate. Qed.
+
+(* pkh(K): compressed and uncompressed key (Proofs/DescSpendKeyOnly.v) *)
+From Verif Require Import DescSpendKeyOnly.
+Definition ex_key_unc : bytes := 4 :: repeat 7 64.
+Lemma ex_pkh :
+  (blen ex_key = 33 /\ blen ex_key_unc = 65) /\
+  blen (e_hash160 ex_env ex_key) = 20 /\ blen (e_hash160 ex_env ex_key_unc) = 20 /\
+  e_keyok (with_sv ex_env SvBase) ex_key = true /\ e_keyok (with_sv ex_env SvBase) ex_key_unc = true /\
+  e_sigok ex_env ex_key ex_sig = true /\ e_sigok ex_env ex_key_unc ex_sig = true /\
+  2 <= blen ex_sig /\ blen (ssig_pkh ex_sig ex_key) <= 1650 /\ blen (ssig_pkh ex_sig ex_key_unc) <= 1650 /\
+  verify_bare ex_env (spk_pkh ex_env ex_key) (ssig_pkh ex_sig ex_key) [] = true /\
+  verify_spend ex_env ex_commit (spk_pkh ex_env ex_key) (ssig_pkh ex_sig ex_key) [] = true /\
+  verify_spend ex_env ex_commit (spk_pkh ex_env ex_key_unc) (ssig_pkh ex_sig ex_key_unc) [] = true.
+Proof. repeat split; try (vm_compute; reflexivity); vm_compute; discriminate. Qed.
+
+(* taproot key path: a 64-byte signature (default sighash) and a 65-byte one, verified against the
+   output key; the annex form is rejected *)
+Definition ex_sig64 : bytes := repeat 8 64.
+Definition ex_sig65 : bytes := repeat 8 64 ++ [1].
+Definition ex_env_tr : env :=
+  mkEnv SvBase 0 0 2 (fun k s => bytes_eqb k ex_outkey && (bytes_eqb s ex_sig64 || bytes_eqb s ex_sig65))
+        (fun _ => true) (fun _ => repeat 1 32) (fun _ => repeat 3 32) (fun _ => repeat 4 20) (fun _ => repeat 9 20).
+Lemma ex_tr_keypath :
+  blen ex_outkey = 32 /\ blen ex_sig64 = 64 /\ blen ex_sig65 = 65 /\
+  e_sigok ex_env_tr ex_outkey ex_sig64 = true /\ e_sigok ex_env_tr ex_outkey ex_sig65 = true /\
+  verify_tr ex_env_tr ex_outkey ex_commit [] (wit_tr_keypath ex_sig64) = true /\
+  verify_spend ex_env_tr ex_commit (spk_tr ex_outkey) [] (wit_tr_keypath ex_sig64) = true /\
+  verify_spend ex_env_tr ex_commit (spk_tr ex_outkey) [] (wit_tr_keypath ex_sig65) = true /\
+  verify_spend ex_env_tr ex_commit (spk_tr ex_outkey) [] [ex_sig64; 80 :: [1; 2]] = false.
+Proof. repeat split; vm_compute; reflexivity. Qed.
